@@ -195,7 +195,18 @@ func requestHash(args []string, stdin []byte) uint32 {
 		h.Write([]byte{0})
 	}
 	h.Write(stdin)
-	return h.Sum32()
+	return mix32(h.Sum32())
+}
+
+// mix32 spreads the entropy of a hash over all its bits (murmur3's finaliser): the low bits of FNV-1a depend on the low
+// bits of the input bytes only, and the rotations below are chosen by small residues
+func mix32(x uint32) uint32 {
+	x ^= x >> 16
+	x *= 0x85ebca6b
+	x ^= x >> 13
+	x *= 0xc2b2ae35
+	x ^= x >> 16
+	return x
 }
 
 func stdinModeFor(args []string, stdin []byte) string {
@@ -219,6 +230,9 @@ var valueFlags = map[string]string{"key": "k", "output": "o", "root": "r", "targ
 // respell rewrites the flag spellings of a request as chosen by its hash (five requests in eight keep theirs)
 func respell(args []string, h uint32) []string {
 	sel := (h / 64) % 8
+	if sel == 4 {
+		return globalsFirst(args)
+	}
 	if sel < 5 {
 		return args
 	}
@@ -251,6 +265,28 @@ func respell(args []string, h uint32) []string {
 		}
 	}
 	return out
+}
+
+// globalsFirst moves the global flags (--debug, -o / --output, --attr, --chord) in front of the sub-command: they are
+// persistent flags of the root command and may stand anywhere
+func globalsFirst(args []string) []string {
+	front, rest := []string{}, []string{}
+	for i := 0; i < len(args); i++ {
+		a := args[i]
+		switch {
+		case a == "--debug":
+			front = append(front, a)
+		case (a == "-o" || a == "--output" || a == "--attr" || a == "--chord") && i+1 < len(args):
+			front = append(front, a, args[i+1])
+			i++
+		default:
+			rest = append(rest, a)
+		}
+	}
+	if len(front) == 0 {
+		return args
+	}
+	return append(front, rest...)
 }
 
 func (c *Ctx) crd(args []string, stdin []byte) run.Result {
@@ -310,7 +346,7 @@ var viaRoutes = []string{"redir", "dash", "file", "devstdin", "fifo", "relfile"}
 func viaFor(input string) string {
 	h := fnv.New32a()
 	h.Write([]byte(input))
-	if k := int(h.Sum32() % 16); k < len(viaRoutes) {
+	if k := int(mix32(h.Sum32()) % 16); k < len(viaRoutes) {
 		return viaRoutes[k]
 	}
 	return ""
